@@ -387,6 +387,28 @@ func (s *Sim) onTerminalCB(side int, o *kit.Outcome, cb *kit.CB, p *Pkt, m *opMe
 			} else {
 				s.C.Inc("ack_matches_truth_ack")
 			}
+			// each application must be handed the acknowledgement of its own payload
+			if p.AckV2 != nil && cb.Payload != nil {
+				var want []byte
+				found := false
+				for i, pl := range p.V2.Payloads {
+					if pl.SourcePort == cb.Payload.SourcePort && pl.DestinationPort == cb.Payload.DestinationPort && bytes.Equal(pl.Value, cb.Payload.Value) {
+						if len(p.AckV2.AppAcknowledgements) == len(p.V2.Payloads) {
+							if !found || bytes.Equal(p.AckV2.AppAcknowledgements[i], cb.Ack) {
+								want = p.AckV2.AppAcknowledgements[i]
+							}
+						} else {
+							want = p.AckV2.AppAcknowledgements[0]
+						}
+						found = true
+					}
+				}
+				if found && !bytes.Equal(want, cb.Ack) {
+					s.viol("C06", "app-handed-another-payloads-ack", "packet %s: application %s was handed acknowledgement %q, its own payload was acknowledged with %q", p, cb.Port, cb.Ack, want)
+				} else if found {
+					s.C.Inc("v2_app_acks_matched")
+				}
+			}
 			if p.AckV2 != nil && !sameAckV2(*p.AckV2, msg.Acknowledgement) {
 				s.viol("C06", "ack-differs-from-app-acks", "packet %s acknowledged with %x, destination apps returned %x", p, msg.Acknowledgement.AppAcknowledgements, p.AckV2.AppAcknowledgements)
 			}
